@@ -14,8 +14,12 @@ Quirks of the code that the model keeps:
 * `min_weight_split` is compared with the *number* of rows of the node, `min_weight_leaf` with
   weights;
 * the threshold is the midpoint to the globally next value, or the current value when the
-  midpoint is not below the next value (floating-point rounding; after `fix:` commits in linfa —
-  before them the midpoint was used unconditionally and prediction routed `value < split`);
+  midpoint is not in `[value, next value)` (floating-point rounding onto the next value, overflow
+  of the sum to an infinity; after `fix:` commits in linfa — before them the midpoint was used
+  unconditionally and prediction routed `value < split`);
+* the equal-value skip is `value == next || |value - next| < 1e-5` (`==` written `≤ ∧ ≥`, the same
+  on floats incl. NaN; the first disjunct matters for equal infinite values, whose difference is
+  NaN — a `fix:` commit in linfa);
 * fitting and prediction both route `value <= split` to the left;
 * `gini_impurity` / `entropy` `assert!` a positive total (reachable with `min_weight_leaf <= 0`);
 * a node one of whose sides received no row is flagged `leaf_node` but keeps its other child
@@ -26,7 +30,8 @@ Quirks of the code that the model keeps:
 * `sorted_frequencies`: every sum over class weights (`total_weight`, both impurities) runs in the
   order of the label type (`inLabelOrder`), not in class-index order and not in hash order;
 * `prune` merges sibling leaves with equal prediction, bottom-up;
-* the accessors `iter_nodes` (level order), `num_leaves`, `max_depth()`, `features()`.
+* the accessors `iter_nodes` (level order), `num_leaves`, `max_depth()`, `features()` (first-met
+  order of the level-order traversal).
 -/
 import LinfaSpec.Model.Scalar
 
@@ -173,7 +178,7 @@ def sweepGo (P : Params α β) (D : Data α β) (mask : List Bool) (f : Nat) (to
       let wR' := wR - w
       let fL' := addAt fL c w
       let wL' := wL + w
-      if absS (v - v') < P.eps then
+      if (v ≤ v' ∧ v' ≤ v) ∨ absS (v - v') < P.eps then
         sweepGo P D mask f total fL' fR' wL' wR' ((j, v') :: rest)
       else if wR' < P.minLeaf ∨ wL' < P.minLeaf then
         sweepGo P D mask f total fL' fR' wL' wR' ((j, v') :: rest)
@@ -181,7 +186,7 @@ def sweepGo (P : Params α β) (D : Data α β) (mask : List Bool) (f : Nat) (to
         let wq := wR' / total
         let score := wq * impurity P (inLabelOrder D fR') + (1 - wq) * impurity P (inLabelOrder D fL')
         let mid := (v + v') / ((2 : Nat) : α)
-        { feat := f, split := (if mid < v' then mid else v), score := score, wL := wL', wR := wR',
+        { feat := f, split := (if v ≤ mid ∧ mid < v' then mid else v), score := score, wL := wL', wR := wR',
           fL := fL', fR := fR', ok := impOk (inLabelOrder D fR') && impOk (inLabelOrder D fL') } ::
           sweepGo P D mask f total fL' fR' wL' wR' ((j, v') :: rest)
     else
@@ -366,9 +371,14 @@ def numLeaves (t : Tree α) : Nat := ((iterNodes t).filter Tree.isLeafFlag).leng
 /-- `DecisionTree::max_depth`: `iter_nodes().fold(0, max(depth))` -/
 def maxDepthOf (t : Tree α) : Nat := (iterNodes t).foldl (fun m n => Nat.max m n.depthField) 0
 
-/-- `DecisionTree::features` as a set (the Rust function collects a `HashSet`), listed ascending -/
-def featuresOf (t : Tree α) (p : Nat) : List Nat :=
-  (List.range p).filter fun f => (splitDecs t).any fun fd => fd.1 == f
+/-- the loop of `DecisionTree::features`: push a feature index the first time it is met
+(`if seen.insert(f) { fitted_features.push(f) }`) -/
+def firstOcc (l : List Nat) : List Nat :=
+  l.foldl (fun acc f => if acc.contains f then acc else acc ++ [f]) []
+
+/-- `DecisionTree::features`: the feature indexes of the split nodes in the order the level-order
+traversal meets them first -/
+def featuresOf (t : Tree α) : List Nat := firstOcc ((splitDecs t).map (·.1))
 
 end
 end LinfaSpec.Tree
